@@ -1158,6 +1158,7 @@ fn c09(tier: Tier, seed: u64) -> i32 {
 			eval_seq_case(&se, &case, want)
 		});
 	}
+	types_half(&mut ctx, "C09", tier, "types-members-of-an-owned-collection-cannot-be-reached-singly");
 	ctx.require_label("conc.exhaustive.program_fully_enumerated", 100);
 	ctx.require_label("retry.rolled_back", 500);
 	ctx.finish()
@@ -1496,27 +1497,40 @@ pub fn types_pairs_for(prop: &str, tier: Tier) -> Vec<crate::tyeng::Pair> {
 		// the unchecked constructors trust `OwnedLockable`: a borrowing or shareable
 		// type that gets the marker lets one thread list a lock twice (C01: it then
 		// waits for itself) and makes try outcomes depend on nesting (C13)
-		"C01" | "C13" => crate::tyeng::families_owned_lockable()
-			.into_iter()
-			.map(|mut p| {
-				p.prop = prop.into();
-				p
-			})
-			.collect(),
+		"C01" | "C13" => {
+			let mut v: Vec<crate::tyeng::Pair> = crate::tyeng::families_owned_lockable()
+				.into_iter()
+				.map(|mut p| {
+					p.prop = prop.into();
+					p
+				})
+				.collect();
+			if prop == "C01" {
+				v.extend(owned_opacity_pairs("C01"));
+			}
+			v
+		}
+		// an owned collection takes its members in listing order and counts as one
+		// lock: sound only while no shared reference to a member can be had
+		"C09" => owned_opacity_pairs("C09"),
 		// C08: the sorted lock list is computed once: the member list must not change afterwards
-		"C08" => crate::tyeng::families_mutation_after_check()
-			.into_iter()
-			.map(|mut p| {
-				p.prop = "C08".into();
-				p.family = "C08-member-list-fixed-after-sorting".into();
-				p
-			})
-			.collect(),
+		"C08" => {
+			let mut v: Vec<crate::tyeng::Pair> = crate::tyeng::families_mutation_after_check()
+				.into_iter()
+				.map(|mut p| {
+					p.prop = "C08".into();
+					p.family = "C08-member-list-fixed-after-sorting".into();
+					p
+				})
+				.collect();
+			v.extend(owned_opacity_pairs("C08"));
+			v
+		}
 		// C03: nothing that carries a hold can be duplicated (a `Clone` of a hold
 		// acquires without a key while the thread holds locks)
 		"C03" => crate::tyeng::families_c14(&crate::tyeng::Subj::all())
 			.into_iter()
-			.filter(|p| p.family.starts_with("K3-key-or-hold-carrier"))
+			.filter(|p| p.family.starts_with("K3-key-or-hold-carrier") || p.family.starts_with("K10-"))
 			.map(|mut p| {
 				p.prop = "C03".into();
 				p
@@ -1583,6 +1597,7 @@ fn types_report(tc: &crate::tyeng::Toolchain, p: &crate::tyeng::Pair, want: bool
 		"C05" => "C05",
 		"C13" => "C13",
 		"C08" => "C08",
+		"C09" => "C09",
 		"C10" => "C10",
 		_ => "C07",
 	};
@@ -1667,12 +1682,25 @@ pub fn types_campaign(ctx: &mut CheckCtx, prop: &str, tier: Tier, quick_n: u64) 
 	true
 }
 
+/// D5: no shared access to the members of an owned collection (child, as_ref,
+/// iter, `&c` iteration, fields)
+fn owned_opacity_pairs(prop: &str) -> Vec<crate::tyeng::Pair> {
+	crate::tyeng::families_c15(&crate::tyeng::Subj::all())
+		.into_iter()
+		.filter(|p| p.family.starts_with("D5-"))
+		.map(|mut p| {
+			p.prop = prop.into();
+			p
+		})
+		.collect()
+}
+
 /// compile-time half of a run-time property: the pairs of `types_pairs_for(prop)`
 pub fn types_half(ctx: &mut CheckCtx, prop: &str, tier: Tier, campaign: &str) {
 	match crate::tyeng::Toolchain::locate() {
 		Ok(tc) => {
 			let mut pairs = types_pairs_for(prop, tier);
-			if matches!(prop, "C08" | "C10") {
+			if matches!(prop, "C08" | "C09" | "C10") {
 				surface_pairs(ctx, prop, &mut pairs);
 			}
 			let items: Vec<usize> = (0..pairs.len()).collect();
